@@ -28,7 +28,7 @@ from jinja2 import Environment, FileSystemLoader, Template
 from jinja2.exceptions import TemplateNotFound, TemplateSyntaxError
 
 from .. import ReuseInfo
-from .._annotate import add_header_to_file
+from .._annotate import add_header_to_file, is_symlinked_dot_license
 from .._util import _determine_license_path, _determine_license_suffix_path
 from ..comment import (
     NAME_STYLE_MAP,
@@ -485,8 +485,9 @@ def annotate(
                     ).format(path=path, new_path=new_path)
                 )
             path = Path(new_path)
-            created_dot_license = not path.exists()
-            path.touch()
+            if not is_symlinked_dot_license(path):
+                created_dot_license = not path.exists()
+                path.touch()
         file_result = add_header_to_file(
             path=path,
             reuse_info=reuse_info,
